@@ -210,7 +210,8 @@ def rule_p1(ctx, F):
         # just passed was tested (and appended when exactly one list covered it)
         add_pts = {pt for pt, n in adds}
         step = {pt for pt, n in find(fn, "current_position = _")} | {pt for pt, n in find(fn, "in_old_range = !in_old_range")} | {pt for pt, n in find(fn, "in_new_range = !in_new_range")}
-        head = {pt for pt, e in fn.points() if e.get("k") == "decl" and e.get("name") == fn.cur("next_old_position")}
+        # loop head: the uninitialised `Length` declarations at the top of the loop body (next_old/new_position)
+        head = {pt for pt, e in fn.points() if e.get("k") == "decl" and (e.get("t") or "") == "Length" and e.get("init") is None}
         bind_names(fn, ["in_old_range", "in_new_range"]) if "bind_names" in globals() and False else None
 
         class Sweep(Monitor):
